@@ -689,7 +689,7 @@ impl<'s, A: Pay + Send + Sync, B: Pay + Send + Sync> W<'s, A, B> {
         }
         if roll < 52 {
             let slot = self.slots[i].take().unwrap();
-            let swapish = matches!(slot.h, H2::Swap(_)) || (matches!(slot.h, H2::Thin(_)) && r % 4 == 3);
+            let swapish = slot.h.kind() == "tswap" || (slot.h.kind() == "thin" && r % 4 == 3 && cfg!(feature = "full"));
             let ((h, how), traffic) = count_traffic(|| shadow::tracked(|| conv2(slot.h, r)));
             if let (Some(n), false) = (traffic, swapish) {
                 // thin <-> fat <-> protected <-> raw are pure pointer conversions
